@@ -12,6 +12,11 @@ package main
 //      with the per-address subsequences interleaved differently and reverted junk work in between, and cut into
 //      pieces by Commit+Reopen.  Whether two of these end in the same content is decided by the specification;
 //      whenever it says "same", the real roots must be equal (and different otherwise).
+//   C  sibling states: two live State objects opened from the same committed root, operated on alternately, staged to
+//      sibling versions (same major version, conflict numbers 0 and 1), committed in the other order, both re-opened
+//      and read back; one of them keeps living after its commit and commits a second time.
+// Runs with api = statedb go through runtime/statedb where it has the operation and also journal logs, transfers and
+// refunds (AddLog / AddTransfer / AddRefund, read back with GetLogs / GetRefund after every event).
 
 import (
 	"fmt"
@@ -19,6 +24,7 @@ import (
 	"sort"
 	"strings"
 
+	"github.com/vechain/thor/v2/thor"
 	"github.com/vechain/thor/v2/trie"
 
 	"verifharness/internal/trace"
@@ -44,26 +50,44 @@ type runStat struct {
 	Reopens        int    `json:"reopens"`
 	Roots          int    `json:"distinctRoots"`
 	RootRepeats    int    `json:"stagesHittingKnownRoot"`
+	EncodeWrites   int    `json:"encodeStorageWrites"`
+	SideOps        int    `json:"logTransferRefundOps"`
+	SideReverted   int    `json:"revertsDroppingLogs"`
+	BuildTries     int    `json:"buildStorageTrie"`
+	SiblingCommits int    `json:"siblingCommits"`
+	Switches       int    `json:"stateSwitches"`
 	Error          string `json:"error,omitempty"`
 }
 
 type op struct {
 	name       string
 	a, k, v, t int
+	ver        *trie.Version // Stage at this version (sibling versions); nil: the next unused one
 }
+
+// per State object: what the generator remembers about it
+type book struct {
+	deleted map[int]bool // deleted in this State object (never cleared by reverts)
+	delLvl  []int        // checkpoint depth at which each not-yet-reverted Delete happened
+	logLvl  []int        // checkpoint depth at which each not-yet-reverted log/transfer/refund was journaled
+	depth   int
+}
+
+func newBook() book { return book{deleted: map[int]bool{}, depth: 1} }
 
 type recorder struct {
 	rng     *rand.Rand
 	evs     *[]trace.Ev
 	roots   *trace.Interner
+	sroots  *trace.Interner
 	seenRt  map[string]bool
 	st      *runStat
 	w       *world
 	touched map[int]map[int]bool // address -> keys ever mentioned in this part
 	order   []int                // touched addresses in first-touch order
-	deleted map[int]bool         // deleted in the current State (cleared on reopen)
-	delLvl  []int                // checkpoint depth at which each not-yet-reverted Delete happened
-	depth   int
+	book                         // of the current State object
+	books   map[int]*book        // of the parked ones
+	cur     int                  // id of the current State object
 	failed  bool
 }
 
@@ -189,6 +213,47 @@ func (r *recorder) apply(o op) {
 	case "SetRawStorage":
 		w.setRawStorage(o.a, o.k, o.v)
 		ev["a"], ev["k"], ev["v"] = o.a, o.k, o.v
+	case "EncodeStorage":
+		err = w.encodeStorage(o.a, o.k, o.v)
+		ev["a"], ev["k"], ev["v"] = o.a, o.k, o.v
+		r.st.EncodeWrites++
+	case "AddLog":
+		w.addLog(o.v)
+		ev["id"] = o.v
+	case "AddTransfer":
+		w.addTransfer(o.v)
+		ev["id"] = o.v
+	case "AddRefund":
+		w.addRefund(o.v)
+		ev["v"] = o.v
+	case "BuildStorageTrie":
+		h, berr := w.buildStorageRoot(o.a)
+		if berr != nil {
+			r.fail("BuildStorageTrie", berr)
+			return
+		}
+		ev["a"], ev["sroot"] = o.a, r.sroots.Name(h[:])
+		r.st.BuildTries++
+		r.emit(ev)
+		return
+	case "Fork":
+		root := w.commits[o.v-1]
+		w.fork(r.cur, root)
+		b := r.book
+		r.books[r.cur] = &b
+		r.book, r.cur = newBook(), o.t
+		ev["id"], ev["ci"], ev["root"] = o.t, o.v, r.roots.Name(root.Hash[:])
+		full = true
+	case "Switch":
+		w.switchTo(r.cur, o.t)
+		b := r.book
+		r.books[r.cur] = &b
+		r.book = *r.books[o.t]
+		delete(r.books, o.t)
+		r.cur = o.t
+		ev["to"] = o.t
+		r.st.Switches++
+		full = true
 	case "Delete":
 		ev["a"] = o.a
 		done := true
@@ -217,6 +282,14 @@ func (r *recorder) apply(o op) {
 		if o.v < r.depth {
 			r.depth = o.v
 		}
+		dropped := false
+		for len(r.logLvl) > 0 && r.logLvl[len(r.logLvl)-1] > r.depth {
+			r.logLvl = r.logLvl[:len(r.logLvl)-1]
+			dropped = true
+		}
+		if dropped {
+			r.st.SideReverted++
+		}
 		undone := false
 		for len(r.delLvl) > 0 && r.delLvl[len(r.delLvl)-1] > r.depth {
 			r.delLvl = r.delLvl[:len(r.delLvl)-1]
@@ -227,7 +300,14 @@ func (r *recorder) apply(o op) {
 		}
 		full = true
 	case "Stage":
-		h, ver, serr := w.doStage()
+		var h thor.Bytes32
+		var ver trie.Version
+		var serr error
+		if o.ver != nil {
+			h, ver, serr = w.doStageAt(*o.ver)
+		} else {
+			h, ver, serr = w.doStage()
+		}
 		if serr != nil {
 			r.fail("Stage", serr)
 			return
@@ -255,8 +335,7 @@ func (r *recorder) apply(o op) {
 		w.open(root)
 		ev["ci"], ev["root"] = o.v, r.roots.Name(root.Hash[:])
 		r.st.Reopens++
-		r.depth = 1
-		r.deleted, r.delLvl = map[int]bool{}, nil
+		r.book = newBook()
 		full = true
 	default:
 		panic("HARNESS: unknown op " + o.name)
@@ -271,11 +350,15 @@ func (r *recorder) apply(o op) {
 		}
 		r.touch(o.a, o.k)
 	}
-	if (o.name == "SetStorage" || o.name == "SetRawStorage") && o.v == 0 {
+	if (o.name == "SetStorage" || o.name == "SetRawStorage" || o.name == "EncodeStorage") && o.v == 0 {
 		r.st.ZeroWrites++
 	}
-	if o.name == "SetRawStorage" && o.v >= listBase {
+	if (o.name == "SetRawStorage" || o.name == "EncodeStorage") && o.v >= listBase {
 		r.st.ListWrites++
+	}
+	if o.name == "AddLog" || o.name == "AddTransfer" || o.name == "AddRefund" {
+		r.st.SideOps++
+		r.logLvl = append(r.logLvl, r.depth)
 	}
 	var rd []any
 	var ok bool
@@ -293,6 +376,9 @@ func (r *recorder) apply(o op) {
 		rd = []any{}
 	}
 	ev["rd"] = rd
+	if w.sdb != nil {
+		ev["sj"] = w.readSide().json()
+	}
 	r.emit(ev)
 }
 
@@ -300,7 +386,8 @@ func (r *recorder) apply(o op) {
 func (r *recorder) reset(hdr trace.Ev, cache string, viaStateDB bool) {
 	r.w = &world{d: newDB(cache), useSDB: viaStateDB}
 	r.w.open(trie.Root{})
-	r.touched, r.order, r.deleted, r.delLvl, r.depth = map[int]map[int]bool{}, nil, map[int]bool{}, nil, 1
+	r.touched, r.order = map[int]map[int]bool{}, nil
+	r.book, r.books, r.cur = newBook(), map[int]*book{}, 1
 	r.emit(hdr)
 }
 
@@ -313,10 +400,16 @@ func (r *recorder) randValue() (string, int) {
 		return "SetRawStorage", 0
 	case x < 70:
 		return "SetStorage", 1 + r.rng.Intn(300)
-	case x < 80:
+	case x < 76:
 		return "SetRawStorage", 1 + r.rng.Intn(300)
-	default:
+	case x < 80:
+		return "EncodeStorage", 1 + r.rng.Intn(300)
+	case x < 88:
 		return "SetRawStorage", listBase + r.rng.Intn(8)
+	case x < 97:
+		return "EncodeStorage", listBase + r.rng.Intn(8)
+	default:
+		return "EncodeStorage", 0
 	}
 }
 
@@ -330,6 +423,78 @@ func (r *recorder) metaOp(a int) op {
 		return op{name: "SetMaster", a: a, v: []int{0, 0, 1, 2, 3}[r.rng.Intn(5)]}
 	default:
 		return op{name: "SetCode", a: a, v: []int{0, 0, 1, 2, 3, 4}[r.rng.Intn(6)]}
+	}
+}
+
+func (r *recorder) sideOp() op {
+	switch r.rng.Intn(3) {
+	case 0:
+		return op{name: "AddLog", v: 1 + r.rng.Intn(40)}
+	case 1:
+		return op{name: "AddTransfer", v: 1 + r.rng.Intn(40)}
+	}
+	return op{name: "AddRefund", v: 1 + r.rng.Intn(20000)}
+}
+
+// part C: precondition - the current State object (id 1) was just re-opened from the latest commit
+func (r *recorder) partC(na int) {
+	parent := len(r.w.commits)
+	small := 2 + r.rng.Intn(6)
+	write := func() {
+		a := 1 + r.rng.Intn(na)
+		if len(r.order) > 0 && r.rng.Intn(2) == 0 {
+			a = r.order[r.rng.Intn(len(r.order))] // committed accounts of the parent: both siblings change the same tries
+		}
+		switch x := r.rng.Intn(10); {
+		case x < 3:
+			r.apply(r.metaOp(a))
+		case x < 9:
+			name, v := r.randValue()
+			r.apply(op{name: name, a: a, k: 1 + r.rng.Intn(small), v: v})
+		default:
+			r.apply(op{name: "Delete", a: a})
+		}
+	}
+	for i, n := 0, 1+r.rng.Intn(6); i < n; i++ {
+		write()
+	}
+	r.apply(op{name: "Fork", v: parent, t: 2})
+	for i, n := 0, 10+r.rng.Intn(30); i < n && !r.failed; i++ {
+		write()
+		if r.rng.Intn(3) == 0 {
+			r.apply(op{name: "Switch", t: 3 - r.cur})
+		}
+	}
+	if r.failed {
+		return
+	}
+	if r.cur != 1 {
+		r.apply(op{name: "Switch", t: 1})
+	}
+	va, vb := r.w.d.siblingVers()
+	r.apply(op{name: "Stage", ver: &va}) // state 1 at (major, 0)
+	r.apply(op{name: "Switch", t: 2})
+	r.apply(op{name: "Stage", ver: &vb}) // state 2 at (major, 1)
+	r.apply(op{name: "Commit"})          // state 2 commits first
+	c2 := len(r.w.commits)
+	r.apply(op{name: "Switch", t: 1})
+	r.apply(op{name: "Commit"})
+	c1 := len(r.w.commits)
+	r.st.SiblingCommits += 2
+	if r.failed {
+		return
+	}
+	// state 2 stays alive; state 1's object is replaced by re-opened ones
+	r.apply(op{name: "Reopen", v: c1})
+	r.apply(op{name: "Reopen", v: c2})
+	r.apply(op{name: "Switch", t: 2}) // the live sibling after the other one's commit and the re-opens
+	for i, n := 0, 1+r.rng.Intn(8); i < n; i++ {
+		write()
+	}
+	r.apply(op{name: "Stage"})
+	r.apply(op{name: "Commit"})
+	if !r.failed {
+		r.apply(op{name: "Reopen", v: len(r.w.commits)})
 	}
 }
 
@@ -360,6 +525,10 @@ func (r *recorder) partA(nOps, na int) {
 	}
 	for i := 0; i < nOps && !r.failed; i++ {
 		x := r.rng.Intn(100)
+		if r.w.sdb != nil && r.rng.Intn(9) == 0 {
+			r.apply(r.sideOp())
+			continue
+		}
 		switch {
 		case x < 30:
 			r.apply(r.metaOp(pickAddr()))
@@ -386,8 +555,13 @@ func (r *recorder) partA(nOps, na int) {
 				}
 				r.apply(op{name: "RevertTo", v: rev})
 			}
-		case x < 92:
+		case x < 90:
 			r.apply(op{name: "Stage"})
+		case x < 92:
+			// the storage trie of an address that was not deleted in this State object
+			if a := pickAddr(); !r.deleted[a] {
+				r.apply(op{name: "BuildStorageTrie", a: a})
+			}
 		case x < 97:
 			r.apply(op{name: "Stage"})
 			r.apply(op{name: "Commit"})
@@ -499,13 +673,14 @@ func (r *recorder) partB(hdr func(sub string) trace.Ev, cache string) {
 func randomMain(out string, runs int, seed int64, nOps int) {
 	var evs []trace.Ev
 	roots := trace.NewInterner("r")
+	sroots := trace.NewInterner("s")
 	seen := map[string]bool{}
 	var stats []*runStat
 	for i := 0; i < runs; i++ {
 		rs := seed*1000003 + int64(i)
 		st := &runStat{Run: i, Seed: rs, Cache: []string{"dummy", "real"}[i%2], API: []string{"state", "state", "statedb"}[i%3]}
 		stats = append(stats, st)
-		r := &recorder{rng: rand.New(rand.NewSource(rs)), evs: &evs, roots: roots, seenRt: seen, st: st}
+		r := &recorder{rng: rand.New(rand.NewSource(rs)), evs: &evs, roots: roots, sroots: sroots, seenRt: seen, st: st}
 		hdr := func(sub string) trace.Ev {
 			return trace.Ev{"e": "Reset", "run": i, "seed": rs, "part": sub, "cache": st.Cache, "api": st.API}
 		}
@@ -523,6 +698,9 @@ func randomMain(out string, runs int, seed int64, nOps int) {
 			n := nOps/2 + r.rng.Intn(nOps)
 			r.partA(n, na)
 			st.Addresses = len(r.order)
+			if !r.failed {
+				r.partC(na)
+			}
 			if !r.failed {
 				r.partB(hdr, st.Cache)
 			}
